@@ -176,7 +176,7 @@ def check_c17(out: Outcome):
                 if not ok:
                     failures.append((f"C17/inv/{p.pid}/{name}", detail, p, {"inventory_of": s.name}))
             out.unsafe_tokens += invs[s.name]["unsafe_tokens"]
-    uses = [u for p in progs for u in inv.access_use_programs(p)]
+    uses = [u for p in progs for u in inv.access_use_programs(p)] + inv.debug_access_programs()
     for u, ok, diag in inv.run_use_programs(work, "use", uses):
         ob = f"C17/use/{u.pid}/{u.what}"
         out.add_ob(ob, "must-compile" if u.expect else "must-not-compile", "rustc + real macro", ok)
